@@ -425,3 +425,58 @@ def trace_validation(res, work, n_traces, max_nodes=30):
                           f"expressions {t['exprs']}", {"nodes": t["nodes"], "soll": t["soll"], "seed": seed(), "idx": t["id"]})
     if traces:
         res.sample({"random_ahb_nodes": len(traces[-1]["nodes"]), "soll": traces[-1]["soll"], "real_result_head": traces[-1]["result"][:4]})
+
+
+def large_metamorphic(mode, res, n_trees, max_nodes=25):
+    """C14 / C16 on random AHBs far beyond the exhaustive bound (real code on both sides; the documented result for these trees is decided
+    by TLC in C13's ValidationTrace)"""
+    import ahb  # noqa: F401
+    rng = random.Random(seed() * 313 + (14 if mode == "C14" else 16))
+    labels = (["SOLL.T", "SOLL.T", "SOLL.F", "SOLL.K", "MUSS.T", "MUSS.T", "KANN.T", "PFX.T", "MUSS.F", "KANN.K"] if mode == "C14"
+              else ["INV.T", "INV.T", "MUSS.T", "MUSS.T", "KANN.T", "SOLL.T", "PFX.T", "MUSS.F", "KANN.K"])
+    pools = [("T",), ("T", "F"), ("F", "F"), ("I", "F"), ("F", "I", "T"), ("I", "I")] if mode == "C16" else [("T", "F"), ("F", "T", "T")]
+
+    async def go():
+        for tid in range(1, n_trees + 1):
+            nodes = random_nodes(rng, rng.randint(6, max_nodes), labels, pools)
+            rs = tid * 104729 + seed()
+            deep, exprs, _ = build_ahb(nodes, random.Random(rs))
+            res.distinct((mode, "large", repr(nodes)))
+            for soll in (True, False):
+                base = await real_validate(copy.deepcopy(deep), soll)
+                res.count("validations")
+                if base[0] == "exception":
+                    res.violation(f"validation of a random AHB with {len(nodes)} nodes raised {base[1]}; expressions {exprs}", case_of(nodes, seed(), tid, soll=soll))
+                    return
+                if mode == "C14":
+                    to = "MUSS" if soll else "KANN"
+                    d2, e2, _ = build_ahb(nodes, random.Random(rs), soll_to=to)
+                    for s2 in (True, False):
+                        other = await real_validate(copy.deepcopy(d2), s2)
+                        res.count("validations")
+                        if strip(other) != strip(base):
+                            res.violation(f"random AHB with {len(nodes)} nodes: soll_is_required={soll} gives {short(base)} but the AHB with SOLL rewritten to {to} "
+                                          f"(flag {s2}) gives {short(other)}; expressions {exprs}", case_of(nodes, seed(), tid, soll=soll, exprs=exprs))
+                            return
+                else:
+                    inv = {i for i, n in enumerate(nodes, start=1) if n["kind"] != "p" and n["lab"]["ind"] == "INV"}
+                    d2, e2, _ = build_ahb(nodes, random.Random(rs), inv_to_kann=True)
+                    other = await real_validate(copy.deepcopy(d2), soll)
+                    res.count("validations")
+                    if base[0] != other[0]:
+                        res.violation(f"random AHB with {len(nodes)} nodes: invalid expressions change whether validation completes: {short(base)} vs "
+                                      f"{short(other)}; expressions {exprs}", case_of(nodes, seed(), tid, soll=soll, exprs=exprs))
+                        return
+                    if base[0] == "ok":
+                        a = [e for e in strip(base)[1] if e["id"] not in inv]
+                        b = [e for e in strip(other)[1] if e["id"] not in inv]
+                        bad = [e for e in base[1] if e["id"] in inv and (e["status"] != "OPTIONAL" or not e["hints"])]
+                        if a != b or bad:
+                            res.violation(f"random AHB with {len(nodes)} nodes: {'invalid nodes not optional-with-hint: ' + str(bad) if bad else 'other nodes differ from the AHB with Kann'}; "
+                                          f"expressions {exprs}", case_of(nodes, seed(), tid, soll=soll, exprs=exprs))
+                            return
+
+    asyncio.run(go())
+    res.coverage["traces_validated_against_impl"] = res.coverage.get("validations", 0)
+    res.coverage["evaluations"] = res.coverage.get("validations", 0)
+    res.coverage["large_random_ahbs"] = n_trees
